@@ -58,6 +58,15 @@ def scenarios(tier):
             out.append((point, nth, 0, mode))
         out.append(("writer.loop", 0, 1, mode))
         out.append(("poller.wait", 1, 0, mode))
+    # the segment a daemon killed in the middle of an update left behind (valid header, odd generation) is what the
+    # writer takes over; the poller dies after its first reports
+    for point, nth, f in (("poller.wait", 1, 0), ("poller.loop", 2, 1), ("poller.send", 1, 0)):
+        out.append((point, nth, f, 7))
+    # the poller dies at once while the writer is still starting (a slow start: the death notice and the abort are
+    # in the writer's mailbox before it has created the segment)
+    for f in (0, 1):
+        out.append(("poller.start", 0, f, 0, "writer.start", 0, 1500))
+    out.append(("poller.loop", 0, 0, 0, "writer.start", 0, 1500))
     # another process holds an exclusive flock and an exclusive record lock on the segment file (a second
     # daemon, a lingering earlier instance, any client - the file is world-readable) while a worker dies
     for point, nth in (("poller.loop", 1), ("poller.start", 0), ("writer.loop", 1)):
